@@ -24,7 +24,9 @@ def build_arrays(spec):
     for i, L in enumerate(layers):
         top = float(L['top_frac']) * R if i < len(layers) - 1 else R
         n = int(L['n'])
-        if i == 0:
+        if 'r_fracs' in L:
+            r = np.asarray(L['r_fracs'], dtype=float) * R       # explicit slices (fractions of R), last one = top
+        elif i == 0:
             r = np.linspace(prev, top, n)
         else:
             r = np.linspace(prev, top, n + 1)[1:]
